@@ -14,6 +14,7 @@ package main
 import (
 	"bytes"
 	"fmt"
+	"net"
 	"strings"
 
 	"github.com/insomniacslk/dhcp/dhcpv4"
@@ -467,12 +468,16 @@ func leaseCheck6(sc leaseScenario, o leaseOut) (string, string) {
 		return "", "" // a hand-built modifier list the builders panic on: C16's subject
 	}
 	var dec []*dhcpv6.Message
-	for _, w := range o.txs {
+	for k, w := range o.txs {
 		m, err := dhcpv6.MessageFromBytes(w.bytes)
 		if err != nil {
 			return "v6-request", "the client wrote an undecodable datagram"
 		}
 		dec = append(dec, m)
+		// every transmission goes to the configured server address, zone included
+		if w.dest == nil || !w.dest.IP.Equal(net.ParseIP("ff02::1:2")) || w.dest.Port != 547 || w.dest.Zone != leaseZone6 {
+			return "transmission-destination", fmt.Sprintf("transmission %d went to %v; the client was configured with the server address [ff02::1:2%%%s]:547", k, w.dest, leaseZone6)
+		}
 	}
 	phs := leasePhases(sc, o)
 	if sc.kind == "request" {
